@@ -25,51 +25,56 @@ THEOREMS = [
      "forall (checked : bool) (hdr : option bytes) (body : bytes), (N.of_nat (length body) <= u64_max)%N -> "
      "serve_range checked hdr 200%N body <> Panic"),
     ("range_conn_correct",
-     "forall (checked caching : bool) (status : N) (pg : page) (cache : option page) (reqs : list rreq), page_fits pg -> "
-     "cache_ok pg cache -> status <> 304%N -> "
-     "serve_history checked caching status pg cache reqs = Ok (history_spec caching status pg (is_stored cache) reqs)"),
+     "forall (checked caching : bool) (status : N) (pg : page) (cache : option item) (reqs : list rreq), page_fits pg -> "
+     "vcache_ok pg cache -> status <> 304%N -> "
+     "serve_history checked caching status pg cache reqs = Ok (history_spec caching status pg (held_by cache) reqs)"),
     ("range_history_independent",
      "forall (checked caching : bool) (status : N) (pg : page) (pre : list rreq) (q : rreq), page_fits pg -> status <> 304%N -> "
-     "fresh q = false -> reply_after checked caching status pg pre q = Ok (reply_spec status pg false q)"),
+     "fresh q = false -> reply_after checked caching status pg pre q = Ok (reply_spec status pg [] q)"),
     ("range_after_history",
      "forall (checked caching : bool) (status : N) (pg : page) (pre : list rreq) (q : rreq), page_fits pg -> status <> 304%N -> "
      "reply_after checked caching status pg pre q = Ok (reply_spec status pg (stored_by caching pre) q)"),
     ("range_head_as_get",
-     "forall (checked caching : bool) (status : N) (pg : page) (cache : option page) (ae : N) (hdrs : list bytes) (ims : N), "
-     "page_fits pg -> cache_ok pg cache -> status <> 304%N -> "
-     "fst (rstep checked caching status pg cache {| rq_method := HEAD; rq_ae := ae; rq_ranges := hdrs; rq_ims := ims |}) = "
-     "omap strip_body (fst (rstep checked caching status pg cache {| rq_method := GET; rq_ae := ae; rq_ranges := hdrs; rq_ims := ims |}))"),
+     "forall (checked caching : bool) (status : N) (pg : page) (cache : option item) (ae : N) (hdrs : list bytes) (ims lang : N), "
+     "page_fits pg -> vcache_ok pg cache -> status <> 304%N -> "
+     "fst (rstep checked caching status pg cache {| rq_method := HEAD; rq_ae := ae; rq_ranges := hdrs; rq_ims := ims; rq_lang := lang |}) = "
+     "omap strip_body (fst (rstep checked caching status pg cache {| rq_method := GET; rq_ae := ae; rq_ranges := hdrs; rq_ims := ims; rq_lang := lang |}))"),
     ("range_slice_of_unranged",
-     "forall (pg : page) (ae : N) (v : bytes) (more : list bytes) (a c : N), parse_range v = Some (a, c) -> (a <= c)%N -> "
+     "forall (pg : page) (ae lang : N) (v : bytes) (more : list bytes) (a c : N), parse_range v = Some (a, c) -> (a <= c)%N -> "
      "(a < N.of_nat (length (rp_body (choose pg ae))))%N -> exists full part, "
-     "reply_spec 200%N pg false {| rq_method := GET; rq_ae := ae; rq_ranges := []; rq_ims := 0%N |} = WResp full /\\ "
-     "reply_spec 200%N pg false {| rq_method := GET; rq_ae := ae; rq_ranges := more ++ [v]; rq_ims := 0%N |} = WResp part /\\ "
+     "reply_spec 200%N pg [] {| rq_method := GET; rq_ae := ae; rq_ranges := []; rq_ims := 0%N; rq_lang := lang |} = WResp full /\\ "
+     "reply_spec 200%N pg [] {| rq_method := GET; rq_ae := ae; rq_ranges := more ++ [v]; rq_ims := 0%N; rq_lang := lang |} = WResp part /\\ "
      "w_status full = 200%N /\\ w_status part = 206%N /\\ w_content_encoding part = w_content_encoding full /\\ "
      "w_body part = firstn (N.to_nat (N.min c (w_content_length full - 1) - a + 1)) (skipn (N.to_nat a) (w_body full)) /\\ "
      "w_content_length part = N.of_nat (length (w_body part))"),
     ("range_conn_tiling",
-     "forall (checked caching : bool) (pg : page) (cache : option page) (ae : N) (ws : list N), page_fits pg -> cache_ok pg cache -> "
+     "forall (checked caching : bool) (pg : page) (cache : option item) (ae lang : N) (ws : list N), page_fits pg -> vcache_ok pg cache -> "
      "Forall (fun w => (0 < w)%N) ws -> sumN ws = N.of_nat (length (rp_body (choose pg ae))) -> exists replies, "
-     "serve_history checked caching 200%N pg cache (map (get_range ae) (tile_ranges 0%N ws)) = Ok replies /\\ "
+     "serve_history checked caching 200%N pg cache (map (get_range ae lang) (tile_ranges 0%N ws)) = Ok replies /\\ "
      "concat (map wbody replies) = rp_body (choose pg ae)"),
     ("range_of_unranged",
-     "forall (checked caching : bool) (status : N) (pg : page) (cache : option page) (q : rreq), page_fits pg -> cache_ok pg cache -> "
+     "forall (checked caching : bool) (status : N) (pg : page) (cache : option item) (q : rreq), page_fits pg -> vcache_ok pg cache -> "
      "status <> 304%N -> rq_method q <> HEAD -> fst (rstep checked caching status pg cache q) = "
      "omap (ranged_of (rq_range q)) (fst (rstep checked caching status pg cache (unranged q)))"),
     ("range_conditional",
-     "forall (checked caching : bool) (status : N) (pg : page) (q : rreq), page_fits pg -> status <> 304%N -> "
+     "forall (checked caching : bool) (status : N) (pg : page) (it : item) (q : rreq), page_fits pg -> vcache_ok pg (Some it) -> "
+     "holds (map fst it) (rq_lang q) = true -> status <> 304%N -> "
      "get_or_head (rq_method q) = true -> fresh q = true -> rejected (rq_range q) = false -> "
-     "fst (rstep checked caching status pg (Some pg) q) = Ok not_modified /\\ "
-     "fst (rstep checked caching status pg (Some pg) (unranged q)) = Ok not_modified"),
+     "fst (rstep checked caching status pg (Some it) q) = Ok not_modified /\\ "
+     "fst (rstep checked caching status pg (Some it) (unranged q)) = Ok not_modified"),
+    ("range_conditional_other_variant",
+     "forall (checked caching : bool) (status : N) (pg : page) (it : item) (q : rreq), page_fits pg -> vcache_ok pg (Some it) -> "
+     "holds (map fst it) (rq_lang q) = false -> status <> 304%N -> rejected (rq_range q) = false -> "
+     "fst (rstep checked caching status pg (Some it) q) = Ok (wire_spec status (rq_method q) (choose pg (rq_ae q)) (rq_range q))"),
     ("range_conditional_063_refuted",
      "exists pg q, page_fits pg /\\ get_or_head (rq_method q) = true /\\ fresh q = true /\\ rejected (rq_range q) = false /\\ "
-     "fst (rstep_063 true true 200%N pg (Some pg) (unranged q)) = Ok not_modified /\\ "
-     "fst (rstep_063 true true 200%N pg (Some pg) q) = Ok W416"),
+     "fst (rstep_063 true true 200%N pg (Some [(rq_lang q, pg)]) (unranged q)) = Ok not_modified /\\ "
+     "fst (rstep_063 true true 200%N pg (Some [(rq_lang q, pg)]) q) = Ok W416"),
     ("range_last_line",
-     "forall (checked caching : bool) (status : N) (pg : page) (cache : option page) (m : meth) (ae : N) (v : bytes) "
-     "(more : list bytes) (ims : N), "
-     "rstep checked caching status pg cache {| rq_method := m; rq_ae := ae; rq_ranges := more ++ [v]; rq_ims := ims |} = "
-     "rstep checked caching status pg cache {| rq_method := m; rq_ae := ae; rq_ranges := [v]; rq_ims := ims |}"),
+     "forall (checked caching : bool) (status : N) (pg : page) (cache : option item) (m : meth) (ae : N) (v : bytes) "
+     "(more : list bytes) (ims lang : N), "
+     "rstep checked caching status pg cache {| rq_method := m; rq_ae := ae; rq_ranges := more ++ [v]; rq_ims := ims; rq_lang := lang |} = "
+     "rstep checked caching status pg cache {| rq_method := m; rq_ae := ae; rq_ranges := [v]; rq_ims := ims; rq_lang := lang |}"),
     ("range_stream_correct",
      "forall (checked : bool) (file : bytes) (reqs : list rreq), (N.of_nat (length file) <= u64_max)%N -> "
      "stream_history true checked file reqs = Ok (map (stream_spec file) reqs)"),
@@ -93,7 +98,9 @@ RULE = ("(1) direct calls of kvarn_utils::parse::sanitize_request + CriticalRequ
         "(2) request histories on ONE loopback TCP connection through kvarn::handle_connection -> handle_cache -> SendKind::send "
         "(component range.conn, raw HTTP/1.1 client, framed reads, a sentinel request after each history checks that a HEAD reply "
         "had no body): pages = {handler page: response cache on/off x ServerCachePreference Full/None x compression on/off x handler "
-        "status 200/403/404/500, file read from the file system, file streamed by extensions::stream_body()} x body lengths "
+        "status 200/204/403/404/500, page keyed by path and query, page with a vary rule on accept-language (requests of three "
+        "classes: the cached item holds a variant per class), file read from the file system, file streamed by "
+        "extensions::stream_body()} x body lengths "
         "{0,1,2,10,60, 70000} (thorough: + 3,49,50,51,200,5000, 300000, 1 MiB) x Accept-Encoding {absent, gzip, identity, br, zstd, "
         "deflate}; histories = {cold, warmed by GET, by HEAD, by a ranged GET, by an unsatisfiable GET, by a GET with another "
         "Accept-Encoding, by a POST} x {GET, HEAD, POST} x {no If-Modified-Since, one in 2100 (fresh), one in 1990 (stale)} x one or "
@@ -102,7 +109,8 @@ RULE = ("(1) direct calls of kvarn_utils::parse::sanitize_request + CriticalRequ
         "unchanged through a header line), plus long mixed histories and tilings of the encoded representation. Each reply (status, "
         "content-range, content-length, content-encoding, body bytes received) is compared with the Coq connection "
         "model (correspondence) and — for pages whose handler answers 200 — with the Coq specification: 416 for start > end, the "
-        "304 a request without Range receives when the server holds the response and the client's copy is fresh, else range_spec "
+        "304 a request without Range receives when the server holds the response the request selects (the variant of its class) "
+        "and the client's copy is fresh, else range_spec "
         "applied to the representation that a GET without Range receives under the same Accept-Encoding (oracle; that "
         "representation is observed on the real code by component range.repr on a fresh host and must decode — gzip, br, zstd "
         "decoders inside the harness — to the page's body). accept-ranges is modelled but not compared (no clause of the property "
@@ -112,8 +120,9 @@ ASSUMPTIONS = [
     "bodies fit in memory (length < 2^64), the theorems' only hypothesis on the data (page_fits)",
     "HeaderValue::to_str is modelled as 'every byte is visible ASCII or TAB' (http crate); header values the http crate refuses "
     "to construct are counted as out_of_domain",
-    "connection level: the response cache entry of the URI is absent or holds this page's response (cache_ok: what handle_cache "
-    "stores; expiry/clearing only makes it absent again); one page per URI; the handler's own status is not 304; no "
+    "connection level: the response cache entry of the URI is absent or holds variants of this page's response (vcache_ok: what "
+    "handle_cache stores; expiry/clearing only makes it absent again); one page per URI, every variant of a page with vary rules "
+    "has the same representations (the fixture's handler does not look at the varied header); the handler's own status is not 304; no "
     "Prepare/Present/Package extension rewrites the response; If-Modified-Since is either not older than the cached response "
     "(class 1, sent as a date in 2100) or absent/older (sent as a date in 1990), host.options.disable_if_modified_since = false; "
     "HTTP/1.1 (content-length framing; the request parser keeps the LAST of several Range lines — on HTTP/2 the h2 crate keeps "
@@ -121,9 +130,8 @@ ASSUMPTIONS = [
     "Range values with leading/trailing blanks or bytes that a header line cannot carry are left to the request parser's "
     "property (out_of_domain here)",
     "for a handler status other than 200 the property is silent: the model (and range_any_status / range_conn_correct) records "
-    "that the body is sliced in the same way and the status kept; such cases are compared with the model only",
-    "streamed files (extensions::stream_body): GET and POST only — a HEAD request for a streamed file is answered WITH the body "
-    "(SendKind::send calls the response-pipe future for every method); that is C08's subject and is reported, not checked here",
+    "that the body is sliced in the same way and the status kept — for 1xx and 204 the body that SendKind::send leaves, which is "
+    "empty (a range that is not refused is then answered 416); such cases are compared with the model only",
     "which bytes the compressor produces for a body is external: a page is given to the model as its list of representations "
     "per Accept-Encoding class; the run takes them from the real code's own un-ranged replies (range.repr) and checks that they "
     "decode to the page's body; the request without Range in the same history must receive exactly these bytes again",
@@ -132,9 +140,12 @@ TRUSTED = ["modelled: utils/src/parse.rs sanitize_request (range closure, start/
            "modelled (Model/RangeConn.v): src/lib.rs handle_cache (sanitize_request once before the cache lookup, cache-hit guard "
            "sanitize_data.is_ok() && GET|HEAD, the If-Modified-Since branch that builds the empty 304, miss path handler / "
            "sanitize_error_into_response, maybe_cache for GET|HEAD and the default status_code_cache_filter) and SendKind::send "
-           "(range applied to the content-encoded body but not to a 304, 416 short-circuit, ensure_length after slicing, no body for "
-           "HEAD); src/extensions.rs stream_body (range, clamp, 416, 206 + content-range, content-length, the bytes the future "
-           "writes); comprash::clone_preferred / the compressors are NOT modelled: the representation per Accept-Encoding class is an "
+           "(the body of a 1xx/204/304 response dropped first, range applied to the content-encoded body but not to a 304, 416 "
+           "short-circuit, ensure_length after slicing, no body for HEAD, the response-pipe future not run for HEAD); src/vary.rs "
+           "VariedResponse::get_by_request / push_response as membership of the request's class in the cached item (order and "
+           "position in the item: C05) and handle_cache_helpers::handle_vary_missing (the handler runs, the variant joins the item on "
+           "the terms of a new item); src/extensions.rs stream_body (range, clamp, 416, 206 + content-range, content-length, the "
+           "bytes the future writes); comprash::clone_preferred / the compressors are NOT modelled: the representation per Accept-Encoding class is an "
            "input of the model and of the oracle, taken from the implementation's own reply to a GET without Range (harness component "
            "range.repr) — the correspondence is relative to that observation",
            "harness/src/c09conn.rs: raw HTTP/1.1 client (request text, response head parser, content-length framing, sentinel "
@@ -190,11 +201,13 @@ CFG_STREAM = (1, 1, 0, 2, 200)      # public/f.txt streamed by stream_body(): ne
 CFG_404 = (1, 1, 1, 0, 404)         # the handler answers 404 (stored by the default status filter)
 CFG_403 = (1, 1, 0, 0, 403)         # ... 403 (not stored)
 CFG_500 = (1, 1, 0, 0, 500)         # ... 500 (stored)
+CFG_204 = (1, 1, 0, 0, 204)         # ... 204 WITH a body (stored): SendKind::send drops the body of a 1xx/204/304 response
 CFG_QUERY = (1, 1, 1, 3, 200)       # /p?x=1 with ServerCachePreference::QueryMatters: the cache entry is keyed by path and query
 CFG_VARY = (1, 1, 1, 4, 200)        # a vary rule on accept-language: a cached page without a variant for the request's value
                                     # goes through handle_vary_missing (requests carry a 5th field, the language class)
 CFGS_200 = [CFG_FULL, CFG_NOCOMP, CFG_PREFNONE, CFG_NOCACHE, CFG_FILE, CFG_QUERY, CFG_VARY]
-CFGS_STATUS = [CFG_404, CFG_403, CFG_500]
+CFGS_STATUS = [CFG_404, CFG_403, CFG_500, CFG_204]
+BODYLESS = (204,)                   # handler statuses of the fixtures whose response is sent without its body
 CFGS = CFGS_200 + [CFG_STREAM] + CFGS_STATUS
 CHUNK = 65536
 
@@ -221,7 +234,11 @@ def probe_reprs(pages):
     binary = os.path.join(kv.HARNESS, "target", "debug", "kvh")
     out = {}
     if todo:
-        lines = ["p%d range.repr %s" % (i, kv.xtext(xl(cfg_x(cfg), xb(bd)))) for i, (cfg, bd) in enumerate(todo)]
+        # a page answered 204 is sent without its body: the representation that handle_cache hands to send cannot be seen
+        # on the wire; it is observed on the same page answering 200 (the status plays no part in clone_preferred), the
+        # model drops the body as send does, and the run compares the 204 replies (headers included) with that
+        lines = ["p%d range.repr %s" % (i, kv.xtext(xl(cfg_x(cfg[:4] + (200,) if cfg[4] in BODYLESS else cfg), xb(bd))))
+                 for i, (cfg, bd) in enumerate(todo)]
         for attempt in range(3):
             miss = [l for l in lines if l.split(" ", 1)[0] not in out]
             if not miss:
@@ -255,16 +272,17 @@ def probe_reprs(pages):
     return {p: _REPR_CACHE[p] for p in pages}
 
 
-def rq(m, ae, h, ims=IMS_NONE, before=()):
-    """One request: method, Accept-Encoding class, Range lines (`before` ... then `h`; the last line counts), If-Modified-Since class."""
-    return (m, ae, tuple(before) + (() if h is None else (h,)), ims)
+def rq(m, ae, h, ims=IMS_NONE, before=(), lang=None):
+    """One request: method, Accept-Encoding class, Range lines (`before` ... then `h`; the last line counts), If-Modified-Since class
+    [, the Accept-Language class on a page with a vary rule; default: a function of the request's place, see hist]."""
+    return (m, ae, tuple(before) + (() if h is None else (h,)), ims) + (() if lang is None else (lang,))
 
 
 def hist(cfg, bd, reprs, reqs, kind, prof="dev"):
     if cfg[3] == 4:
         # pages with a vary rule: the language class of a request is a function of its place and content (no rng here:
         # the same history always gets the same classes); class 0 = no Accept-Language header
-        lang = lambda k, q: (k * 7 + len(q[2]) + q[0] + q[3]) % 3
+        lang = lambda k, q: q[4] if len(q) > 4 else (k * 7 + len(q[2]) + q[0] + q[3]) % 3
     else:
         lang = None
     x = xl(xbool(prof == "dev"), cfg_x(cfg), xb(bd),
@@ -303,9 +321,9 @@ PREFIXES = [
 
 
 def methods_of(cfg):
-    # streamed files: GET and POST (a HEAD reply of a stream carries the body: C08's subject);
-    # files read by kvarn: GET and HEAD (any other method is answered 405 by the file system layer)
-    return (GET, GET, POST) if cfg[3] == 2 else (GET, GET, HEAD) if cfg[3] == 1 else (GET, GET, HEAD, POST)
+    # files read by kvarn: GET and HEAD (any other method is answered 405 by the file system layer); streamed files: every
+    # method is answered by the extension (a HEAD reply is the head alone: send does not run the stream's future)
+    return (GET, GET, HEAD) if cfg[3] == 1 else (GET, GET, HEAD, POST)
 
 
 def conn_cases(rng, tier):
@@ -328,6 +346,25 @@ def conn_cases(rng, tier):
     p = (CFG_STREAM, body(10))
     for h in (b"bytes=2-5", b"bytes=8-20", b"bytes=10-12", b"bytes=0-%d" % U64):
         cases.append(hist(CFG_STREAM, p[1], reprs[p], [rq(GET, AE_NONE, h)], "conn-corpus"))
+    # corpus: HEAD for a streamed file (kvarn 0.6.3 ran the stream's future for HEAD too: the file's bytes followed the head)
+    cases.append(hist(CFG_STREAM, p[1], reprs[p], [rq(HEAD, AE_NONE, None), rq(HEAD, AE_NONE, b"bytes=2-5"), rq(HEAD, AE_NONE, b"bytes=10-12"),
+                                                   rq(GET, AE_NONE, b"bytes=8-20"), rq(HEAD, AE_NONE, b"bytes=5-2")], "conn-corpus"))
+    # corpus: a page with a vary rule — a conditional request for a variant the cached item does not hold is not answered 304
+    # (before 832d735 the If-Modified-Since test came before the variant was looked up); the variant is held afterwards
+    for n in (10, 60):
+        p = (CFG_VARY, body(n))
+        for m in (GET, HEAD):
+            cases.append(hist(CFG_VARY, p[1], reprs[p],
+                              [rq(GET, AE_NONE, None, lang=0), rq(m, AE_NONE, b"bytes=0-3", IMS_FRESH, lang=1),
+                               rq(m, AE_NONE, b"bytes=0-3", IMS_FRESH, lang=1), rq(GET, AE_NONE, b"bytes=2-5", IMS_FRESH, lang=0),
+                               rq(GET, AE_GZIP, None, IMS_FRESH, lang=2), rq(POST, AE_NONE, b"bytes=1-1", IMS_FRESH, lang=2),
+                               rq(GET, AE_NONE, b"bytes=7-2", IMS_FRESH, lang=1), rq(GET, AE_GZIP, b"bytes=0-0", IMS_FRESH, lang=2)],
+                              "conn-corpus"))
+    # corpus: a handler's 204 with a body — nothing follows the head (89e2956), a range is taken of that empty representation
+    p = (CFG_204, body(10))
+    cases.append(hist(CFG_204, p[1], reprs[p], [rq(GET, AE_NONE, None), rq(GET, AE_NONE, b"bytes=0-3"), rq(HEAD, AE_NONE, b"bytes=0-3"),
+                                                rq(GET, AE_NONE, b"bytes=-3"), rq(GET, AE_NONE, b"bytes=0-3", IMS_FRESH),
+                                                rq(POST, AE_NONE, b"bytes=1-1")], "conn-corpus"))
     pool_syntax = [v for v in VARIANTS if wire_safe(v)]
 
     def pick_ims():
@@ -665,10 +702,12 @@ LEVEL_TEXT = ("Machine-checked Coq theorems over a byte-level model of the Range
               "content-range text, 416 cases, everything else 200) for every body, every header value and both overflow modes "
               "(range_correct; for any other response status the same slice with the status kept: range_any_status); the "
               "accepted header syntax is exactly bytes=<u64>-<u64>; tiling reconstructs the body. On top of it a connection-level model "
-              "of handle_cache + SendKind::send (sanitize before the cache lookup, cache-hit guard, If-Modified-Since -> empty 304, "
-              "error page, storing for GET/HEAD, range on the content-encoded representation but not on a 304, content-length of the "
-              "slice, HEAD without body): for every page, every handler status but 304, every cache state (absent / holding the page), "
-              "every history of GET/HEAD/other-method requests with any number of Range lines of any value, with or without a fresh "
+              "of handle_cache + SendKind::send (sanitize before the cache lookup, cache-hit guard, If-Modified-Since -> empty 304 only "
+              "for a variant the cached item holds, a request for another variant of a page with vary rules runs the handler and "
+              "adds the variant, error page, storing for GET/HEAD, no body under a 1xx/204/304 head, range on the content-encoded "
+              "representation but not on a 304, content-length of the slice, HEAD without body): for every page, every handler status "
+              "but 304, every cache state (absent / holding any variants of the page), "
+              "every history of GET/HEAD/other-method requests of any variant class with any number of Range lines of any value, with or without a fresh "
               "If-Modified-Since, each reply is: 416 for start > end; else the 304 that the same request without Range receives; else "
               "range_spec of the representation a request without Range receives under the same Accept-Encoding (range_conn_correct); "
               "equivalently, in every state the reply is the property's function of the reply to the same request without Range "
@@ -676,21 +715,23 @@ LEVEL_TEXT = ("Machine-checked Coq theorems over a byte-level model of the Range
               "(range_history_independent, range_after_history); HEAD = GET's status and headers without body (range_head_as_get); the "
               "206 body is the slice of the un-ranged 200 body with the same content-encoding (range_slice_of_unranged); of several "
               "Range lines the last counts (range_last_line); consecutive ranged GETs that tile the encoded representation "
-              "reconstruct it, in every cache state (range_conn_tiling); a conditional ranged request on a stored page is answered 304 "
-              "(range_conditional — kvarn 0.6.3 answered 416: range_conditional_063_refuted, repaired in SendKind::send). Files "
-              "streamed by extensions::stream_body: every reply is range_spec of the file (range_stream_correct — kvarn 0.6.3 answered "
+              "reconstruct it, in every cache state (range_conn_tiling); a conditional ranged request for a variant the server holds "
+              "is answered 304 (range_conditional — kvarn 0.6.3 answered 416: range_conditional_063_refuted, repaired in "
+              "SendKind::send), for a variant it does not hold with the ranged representation (range_conditional_other_variant). Files "
+              "streamed by extensions::stream_body: every reply is range_spec of the file, for HEAD its head alone (range_stream_correct — kvarn 0.6.3 answered "
               "200 without content-range, announced more bytes than the file has and never 416: range_stream_063_refuted, repaired). "
               "All models are tied to the code on every run: direct calls of sanitize_request/apply_to_response (debug and "
               "overflow-unchecked builds) on an exhaustive small space + boundaries + syntactic variants + other statuses, and "
               "request histories over loopback TCP through handle_connection (cold/warm caches, gzip/br/zstd/identity "
-              "representations, handler statuses 200/403/404/500, GET/HEAD/POST, conditional requests, several Range lines, streamed "
+              "representations, handler statuses 200/204/403/404/500, pages with a vary rule and with a query-keyed cache entry, "
+              "GET/HEAD/POST, conditional requests, several Range lines, streamed "
               "files, bodies up to 70000 bytes — thorough: 1 MiB), each reply checked against the extracted model and, independently, "
               "against the Coq specification.")
 LEVEL_NOTE = ("Trusted: Coq kernel, extraction (ExtrOcamlBasic) reduced by an in-kernel recheck sample, the hand transcription of "
               "utils/src/parse.rs into Model/Range.v and of handle_cache/send/stream_body into Model/RangeConn.v as validated by the "
               "differential runs, http::HeaderValue::to_str modelled as visible-ASCII, the compressed representation taken from the "
               "implementation's own un-ranged reply (checked to decode to the body). Not covered: HTTP/2 and HTTP/3 (several Range "
-              "lines are kept there; C20 compares the protocols), HEAD on a streamed file (answered with a body: C08's subject), "
-              "pages with vary rules or query-keyed cache entries, the reverse proxy of kvarn_extensions (an upstream 206 is sliced "
-              "again). No axioms.")
+              "lines are kept there; C20 compares the protocols), handler statuses 1xx (the model covers them, the fixtures do not), "
+              "pages whose variants differ in their representations, the order of the variants inside a cached item (C05), the "
+              "reverse proxy of kvarn_extensions (an upstream 206 is sliced again). No axioms.")
 TECHNIQUE = "Coq proof (model = spec for all inputs) + differential correspondence model vs. implementation"
